@@ -30,6 +30,7 @@ var auditedPrunes = map[string]string{
 	"pkg/dsl.containsOpenGeneric/case *SimpleType":                             "search: stops descending once an open generic parameter has been found",
 	"pkg/dsl.validateUnionCases/case *SimpleType":                              "type arguments are checked through the instantiated definition (ResolvedDefinition carries them after convertGenericReferences)",
 	"pkg/dsl.removeUnusedDeclarationPatterns/case *MemberAccessExpression":     "search: stops once a use of the declared variable has been found",
+	"pkg/dsl.GetProtocolSchema/case TypeDefinition":                    "a definition already added to the schema is not visited again (memo on visitedTypeDefinitions)",
 	"pkg/dsl.validateEnums/body":                                               "enum values and base type are checked at the enum; enums do not nest",
 }
 
